@@ -234,6 +234,7 @@ func ParentMain(ck *Check, tier string, seed int64, verifDir, workDir, selfExe s
 		runInProcess(ck, agg, tier, seed, n)
 	} else {
 		runChildren(ck, agg, tier, seed, n, workDir, selfExe)
+		retryInconclusive(ck, agg, tier, seed, workDir, selfExe)
 	}
 	if ck.Finish != nil {
 		ck.Finish(agg)
@@ -551,6 +552,78 @@ func ingestConfirm(agg *Agg, path string, idx int) bool {
 		}
 	}
 	return done
+}
+
+// retryInconclusive gives every case that ended inconclusive (a watchdog of the harness on a loaded machine, as a rule)
+// a second run ALONE, one after the other, once all batches are done. A second run that reaches a verdict decides the
+// case (held, or a violation like any other); one that is inconclusive again, or does not finish, leaves it as it was.
+func retryInconclusive(ck *Check, agg *Agg, tier string, seed int64, workDir, selfExe string) {
+	exe := selfExe
+	if ck.Race {
+		exe = selfExe + "-race"
+	}
+	agg.mu.Lock()
+	seen := map[int]bool{}
+	var idxs []int
+	for _, is := range agg.Inconclusive {
+		if is.Idx >= 0 && !seen[is.Idx] && len(idxs) < 24 {
+			seen[is.Idx] = true
+			idxs = append(idxs, is.Idx)
+		}
+	}
+	agg.mu.Unlock()
+	budget := ck.Stall
+	if budget < 2*time.Minute {
+		budget = 2 * time.Minute
+	}
+	for _, idx := range idxs {
+		out := filepath.Join(workDir, fmt.Sprintf("%s-retry-%d", ck.ID, idx))
+		stuck, _ := confirmStall(ck, tier, seed, idx, workDir, exe, budget, out)
+		decided, again := false, false
+		var found []issue
+		if f, err := os.Open(out + "-confirm.jsonl"); err == nil && !stuck {
+			sc := bufio.NewScanner(f)
+			sc.Buffer(make([]byte, 1<<20), 1<<28)
+			for sc.Scan() {
+				line := sc.Bytes()
+				if bytes.Contains(line, []byte(`"kind":"chunk"`)) {
+					var c chunkSummary
+					if json.Unmarshal(line, &c) == nil && c.Upto > idx {
+						decided = true
+					}
+				} else {
+					var is issue
+					if json.Unmarshal(line, &is) == nil {
+						if is.Kind == "inconclusive" {
+							again = true
+						}
+						found = append(found, is)
+					}
+				}
+			}
+			f.Close()
+		}
+		for _, sfx := range []string{".jsonl", ".log", ".prog"} {
+			os.Remove(out + "-confirm" + sfx)
+		}
+		if !decided || again {
+			continue
+		}
+		agg.mu.Lock()
+		kept := agg.Inconclusive[:0]
+		for _, is := range agg.Inconclusive {
+			if is.Idx != idx {
+				kept = append(kept, is)
+			}
+		}
+		agg.Inconclusive = kept
+		n, _ := agg.Extra["inconclusive_cases_decided_by_a_second_run_alone"].(int)
+		agg.Extra["inconclusive_cases_decided_by_a_second_run_alone"] = n + 1
+		agg.mu.Unlock()
+		for _, is := range found {
+			agg.addIssue(is)
+		}
+	}
 }
 
 func exitDesc(err error) string {
